@@ -84,6 +84,11 @@ type BugState struct {
 	MustActors       []string // authors of operations that changed the state
 	MustParticipants []string // authors of create / add-comment
 	AnyAuthors       []string // everybody who authored an operation of the bug
+	// EffectiveAuthors authored at least one operation other than an edit whose target is not a comment
+	// of the bug; the others only authored edits that "change nothing".
+	EffectiveAuthors []string
+	// UnknownTargetOnly / NonCommentTargetOnly classify the ineffective edits of an author (by author).
+	IneffectiveKinds map[string]map[string]bool
 
 	OpIds  []string
 	OpMeta map[string]map[string]string // per operation: the metadata one must observe
@@ -91,6 +96,17 @@ type BugState struct {
 	// tried to give a different value: the interesting cases of the last clause.
 	OverrideAttempts int
 	IneffectiveEdits int
+}
+
+// IneffectiveOnlyAuthors lists the authors all of whose operations are edits that change nothing.
+func (s *BugState) IneffectiveOnlyAuthors() []string {
+	var out []string
+	for _, a := range s.AnyAuthors {
+		if !contains(s.EffectiveAuthors, a) {
+			out = append(out, a)
+		}
+	}
+	return out
 }
 
 // NewBugState returns the state before any operation.
@@ -133,6 +149,9 @@ func (s *BugState) Apply(op BugOp) error {
 	}
 	s.OpMeta[op.Id] = own
 	s.AnyAuthors = addOnce(s.AnyAuthors, op.Author)
+	if op.Kind != "edit" {
+		s.EffectiveAuthors = addOnce(s.EffectiveAuthors, op.Author)
+	}
 
 	switch op.Kind {
 	case "create":
@@ -172,8 +191,20 @@ func (s *BugState) Apply(op BugOp) error {
 		}
 		if hit {
 			s.MustActors = addOnce(s.MustActors, op.Author)
+			s.EffectiveAuthors = addOnce(s.EffectiveAuthors, op.Author)
 		} else {
 			s.IneffectiveEdits++
+			if s.IneffectiveKinds == nil {
+				s.IneffectiveKinds = map[string]map[string]bool{}
+			}
+			if s.IneffectiveKinds[op.Author] == nil {
+				s.IneffectiveKinds[op.Author] = map[string]bool{}
+			}
+			kind := "unknown-target"
+			if _, isOp := s.OpMeta[op.Target]; isOp {
+				kind = "non-comment-target"
+			}
+			s.IneffectiveKinds[op.Author][kind] = true
 		}
 
 	case "title":
@@ -450,6 +481,19 @@ func (s *BugState) Compare(o ObservedBug) []Mismatch {
 	for _, a := range o.Actors {
 		if !contains(s.AnyAuthors, a) {
 			add("actor-stranger", "actor %s authored no operation of the bug", a)
+		}
+	}
+	// an edit whose target is not a comment of the bug changes nothing: it does not make its author an actor
+	for _, a := range s.IneffectiveOnlyAuthors() {
+		kind := "unknown-target"
+		if s.IneffectiveKinds[a]["non-comment-target"] {
+			kind = "non-comment-target"
+		}
+		if contains(o.Actors, a) {
+			add("actor-from-ineffective-edit:"+kind, "author %s only authored edits that change nothing (%s) but is listed as actor", a, kind)
+		}
+		if contains(o.Participants, a) {
+			add("participant-from-ineffective-edit:"+kind, "author %s only authored edits that change nothing (%s) but is listed as participant", a, kind)
 		}
 	}
 	for _, a := range s.MustActors {
